@@ -54,6 +54,17 @@ PLAN = {
                 traces=[dict(job="map", spec="TraceMap", kinds=["linkedhashmap"]),
                         dict(job="set", spec="TraceSet", kinds=["linkedhashset"])],
                 mc=[]),
+    "C11": dict(level="model_checking", design="6 C11",
+                traces=[dict(job="json", spec="TraceJSON", together=True)],
+                mc=[], trusted=["encoding/json (validity, top-level kind, json.Marshal comparison)"]),
+    "C12": dict(level="model_checking", design="6 C12",
+                traces=[dict(job="json", spec="TraceJSON", together=True),
+                        dict(job="jf", spec="TraceSeq", prop="C03", kinds=["arraylist", "singlylinkedlist", "doublylinkedlist"], together=True),
+                        dict(job="jf", spec="TraceQue", prop="C05", kinds=["arraystack", "linkedliststack", "arrayqueue", "linkedlistqueue", "circularbuffer"], together=True),
+                        dict(job="jf", spec="TraceHeap", prop="C06", kinds=["binaryheap", "priorityqueue"], together=True),
+                        dict(job="jf", spec="TraceSet", prop="C04", kinds=["hashset", "treeset", "linkedhashset"], together=True),
+                        dict(job="jf", spec="TraceMap", prop="C01", kinds=["hashmap", "treemap", "linkedhashmap", "hashbidimap", "treebidimap", "redblacktree", "avltree", "btree"], together=True)],
+                mc=[], trusted=["encoding/json as reference decoder of the input texts (denotation)"]),
     "C13": dict(level="model_checking", design="6 C13",
                 traces=[dict(job="alg", spec="TraceAlg")],
                 mc=[]),
